@@ -144,3 +144,10 @@ def run_case(case, drv):
     res.nontrivial = n >= 3 and nf >= 1 and nf < len(B.X)
     res.features += ["exhaustive:True", f"feasible_vectors:{min(nf, 5)}"]
     return res
+
+
+EXHAUSTIVE_SCOPE = FU.EXHAUSTIVE_FORMS_SCOPE
+
+
+def gen_exhaustive():
+    yield from FU.gen_exhaustive_forms(("arc",))
